@@ -12,7 +12,8 @@ Streams (model `Wpull.Request` vs the real code in the repo under test):
   app      oracle only: the REAL application (AppArgumentParser + Builder factory + ClientSetupTask + pipeline + URL table +
            processor) x cookie option sets {default, --save-cookies, --keep-session-cookies, --load-cookies, --no-cookies} x
            twin-host redirect chains (cookie provenance), and redirects with hostile Location values to a page with links
-           (the Referer of every child request must be a clean normalised URL)
+           (the Referer of every child request must be a clean normalised URL), and start URLs with user-info x 307/308 to
+           another origin x 401 challenges there (every Authorization value belongs to the origin it is sent to)
 Direct oracle (independent of the model) on every real request head: one request line with exactly two SP,
 field lines, blank line, no bare CR/LF, target = path?query (absolute URL with a proxy), exactly one Host equal to
 host[:non-default port] of the hop URL and of the host actually connected to, credentials and cookies only
@@ -223,7 +224,8 @@ def gen_referer_cases(rng, n):
         if k != 'url' or k2 != 'url':
             continue
         pre = rng.choice([None, None, '', 'http://preset.example/'])
-        cases.append({'stream': 'referer', 'child': child.url, 'parent': rng.choice([parent.url, parent.url, parent.url, None, '']), 'preset': pre})
+        cases.append({'stream': 'referer', 'child': child.url, 'parent': rng.choice([parent.url, parent.url, parent.url, None, '']), 'preset': pre,
+                      'http_login': rng.choice([None, None, ['GU', 'GP']])})
     return cases
 
 
@@ -246,10 +248,18 @@ def stream_referer(ctx, cases):
         if pre is not None:
             req.fields['Referer'] = pre
         rec = types.SimpleNamespace(parent_url=parent, url_info=child)
+        http_login = c.get('http_login')
         ns = types.SimpleNamespace(_item_session=types.SimpleNamespace(url_record=rec),
                                    _add_referrer=WebProcessorSession._add_referrer,
-                                   _fetch_rule=types.SimpleNamespace(http_login=None))
+                                   _fetch_rule=types.SimpleNamespace(http_login=tuple(http_login) if http_login else None))
         WebProcessorSession._populate_common_request(ns, req)
+        # the login attributes (what a 401 challenge is answered with, and what survives Request.copy() on a 307/308)
+        # are the configured login or nothing — never the URL's own user-info (model: populateLogin)
+        want_login = tuple(http_login) if http_login else (None, None)
+        if (req.username, req.password) != want_login:
+            ctx.fail('cross-host-credentials', 'WebProcessorSession._populate_common_request', c,
+                     'request for %r got login attributes %r (configured login %r): URL credentials copied into attributes '
+                     'that outlive the URL' % (c['child'], (req.username, req.password), http_login))
         flat = []
         for nme, v in req.fields.get_all():
             flat += [nme, v]
@@ -591,7 +601,10 @@ def check_app_case(ctx, case):
             extra += ['--keep-session-cookies']
         if opt == 'no-cookies':
             extra += ['--no-cookies']
-        res = rc.run_crawl(case['url'], case['replies'], 1, 10, extra_argv=extra, recursive=case.get('recursive', False))
+        if case.get('span_hosts'):
+            extra += ['--span-hosts']       # otherwise SpanHostsFilter refuses the authentication retry on a redirect target
+        res = rc.run_crawl(case['url'], case['replies'], 1, 10, extra_argv=extra, recursive=case.get('recursive', False),
+                           login=tuple(case['login']) if case.get('login') else None)
     finally:
         shutil.rmtree(tmp, ignore_errors=True)
     hops = res['named_hops']
@@ -602,6 +615,18 @@ def check_app_case(ctx, case):
         return
     cookie_src = dict(preload)
     where = 'Application'
+    # credentials written in a URL belong to that URL's origin (host[:port]); the configured login belongs to no host
+    login = tuple(case['login']) if case.get('login') else None
+    cred_owner = {}
+    k0, info0 = rc.parse_url(case['url'])
+    if k0 == 'url' and (info0.username or info0.password):
+        cred_owner.setdefault('%s:%s' % (info0.username or '', info0.password or ''), set()).add(rc.expected_host(info0))
+    for r in case['replies']:
+        loc = r.get('location')
+        if loc and b'@' in loc and loc.startswith(b'http'):
+            kk, li = rc.parse_url(loc.decode('latin-1'))
+            if kk == 'url' and (li.username or li.password):
+                cred_owner.setdefault('%s:%s' % (li.username or '', li.password or ''), set()).add(rc.expected_host(li))
     for k, (host, port, head, body) in enumerate(hops):
         problems, method, target, version, fields = rc.split_request(head)
         if problems:
@@ -613,6 +638,20 @@ def check_app_case(ctx, case):
             ctx.fail('host-mismatch', where, case, 'request %d sent to %s:%d carries Host %r' % (k, host, port, hvals))
         referer_clean(ctx, case, fields, 'ItemSession.add_child_url' if case['kind'] == 'referer' else where, k)
         for n, v in fields:
+            if n.lower() == 'authorization':
+                ctx.tag('app:authorization-sent')
+                up = rc.decode_basic(v)
+                origin = hvals[0] if hvals else host
+                ok = (login is not None and up == '%s:%s' % login) or origin in cred_owner.get(up, ())
+                if login is not None:
+                    for own, origins in cred_owner.items():        # URL user name with the configured password, and the like
+                        if origin in origins:
+                            u, _, p = own.partition(':')
+                            ok = ok or up in ('%s:%s' % (u or login[0], p or login[1]),)
+                if not ok:
+                    ctx.fail('cross-host-credentials', 'WebProcessorSession._populate_common_request', case,
+                             'request %d to %s carries Authorization for %r, which belongs to %s (head %r)'
+                             % (k, origin, up, sorted(cred_owner.get(up, [])) or 'nobody', head[:200]))
             if n.lower() == 'cookie':
                 ctx.tag('app:cookie-sent')
                 if opt == 'no-cookies':
@@ -637,7 +676,7 @@ def check_app_case(ctx, case):
     ctx.sample({'stream': 'app', 'kind': case['kind'], 'cookies': opt, 'url': case['url'], 'requests': len(hops)})
 
 
-def gen_app_cases(rng, n_cookie, n_referer):
+def gen_app_cases(rng, n_cookie, n_referer, n_auth=0):
     out = []
     for i in range(n_cookie):
         if i < 2 * len(APP_COOKIE_OPTIONS):
@@ -655,6 +694,22 @@ def gen_app_cases(rng, n_cookie, n_referer):
                     'cookies': [b'ckT3=v%d; Domain=.a.example' % u] if 'a.example' in h1 and 'a.example' in h2 else [], 'mode': 'resp'},
                    {'status': 200, 'location': None, 'cookies': [], 'mode': 'resp'}]
         out.append({'stream': 'app', 'kind': 'cookies', 'cookies': opt, 'hosts': [h1, h2], 'url': 'http://%s/login' % h1, 'replies': replies})
+    for i in range(n_auth):
+        # credentials in the start URL, a 307/308 (replayed copy of the request) to another origin, a 401 challenge there
+        u = rng.randrange(1000)
+        src = rng.choice(['a.example', 'a.example:8080', '[2001:db8::2]'])
+        dst = rng.choice([h for h in ('b.example', 'a.example:8080', 'a.example', 'sub.a.example', '[2001:db8::5]') if h != src])
+        ui = '' if rng.random() < 0.75 else 'lu%d:lp%d@' % (u, u)
+        first = [307, 308][i % 2] if i < 4 else rng.choice([301, 302, 303, 307, 308])
+        replies = [{'status': first, 'location': ('http://%s%s/t' % (ui, dst)).encode(), 'cookies': [], 'mode': 'resp'},
+                   {'status': 401, 'location': None, 'cookies': [], 'mode': 'resp'},
+                   {'status': rng.choice([200, 401, 307]), 'location': ('http://%s/back' % src).encode(), 'cookies': [], 'mode': 'resp'},
+                   {'status': 401, 'location': None, 'cookies': [], 'mode': 'resp'}, {'status': 200, 'mode': 'resp'}]
+        if i % 3 == 2:
+            replies = [{'status': 401, 'location': None, 'cookies': [], 'mode': 'resp'}] + replies
+        out.append({'stream': 'app', 'kind': 'auth', 'cookies': rng.choice(['default', 'no-cookies']), 'hosts': [src, dst],
+                    'url': 'http://u%d:p%d@%s/x' % (u, u, src), 'replies': replies,
+                    'login': None if i % 4 != 3 else ('GU%d' % u, 'GP%d' % u), 'span_hosts': i % 5 != 4})
     for i in range(n_referer):
         loc = HOSTILE_LOCATIONS[i % len(HOSTILE_LOCATIONS)] if i < len(HOSTILE_LOCATIONS) else rng.choice(HOSTILE_LOCATIONS)
         body = b'<html><body><a href="http://a.example/child1">c</a> <a href="http://a.example/child2?x=1">d</a></body></html>'
@@ -731,7 +786,7 @@ def run(ctx):
     for _ in range(ctx.scale(600, 18000)):
         check_session_case(ctx, gen_chain_case(srng))
     arng = ctx.subrng('app')
-    for case in gen_app_cases(arng, ctx.scale(24, 400), ctx.scale(12, 200)):
+    for case in gen_app_cases(arng, ctx.scale(24, 400), ctx.scale(12, 200), ctx.scale(16, 300)):
         check_app_case(ctx, case)
     prng = ctx.subrng('session-proxy')
     for _ in range(ctx.scale(250, 6000)):
